@@ -653,7 +653,16 @@ def generate(route, srcdir, options, shuffle=None, uris_order="sorted"):
                 from xsdata.models.config import GeneratorConfig
 
                 if route == "cli":
-                    argv = [srcdir, "-c", os.path.join(out, "absent.xml"), *_flags(options)]
+                    flagged = {d for d, _k, _o, _s in cli_options()}
+                    file_only = {k: v for k, v in options.items() if k not in flagged}
+                    cfg_path = os.path.join(out, "absent.xml")
+                    if file_only:
+                        # options without a command line flag (CompoundFields.use_substitution_groups, …)
+                        # can only come from the project file; everything else is given as a flag
+                        cfg_path = os.path.join(out, ".cfg.xml")
+                        with open(cfg_path, "w") as fp:
+                            GeneratorConfig.write(fp, _api_config(file_only))
+                    argv = [srcdir, "-c", cfg_path, *_flags({k: v for k, v in options.items() if k in flagged})]
                 else:
                     path = os.path.join(out, ".cfg.xml")
                     with open(path, "w") as fp:
